@@ -179,12 +179,20 @@ def run(ctx):
                 st['px'][(ox + i % width) + 128 * (oy + i // width)] = b
             st.update(locked=locked, tracking=tracking, scale=scale, icons=icons)
             # the icons of EVERY tracked map after every packet (a packet for one map leaves the others alone)
+            absent = [m_ for m_ in ref if m_ not in ms.maps_by_id]
+            if absent:
+                ctx.violation('after packet #%d (for map %d, %dx%d pixels) of a map history, map(s) %r are not in the map set although a '
+                              'packet for them has been applied' % (len(hist), mid, width, height, absent),
+                              {'history': hist}, key={'maphist-absent': hist})
+                break
             wrong = [m_ for m_, st_ in ref.items()
-                     if [(ic.type, ic.direction, tuple(ic.location), ic.display_name) for ic in ms.maps_by_id[m_].icons] != st_['icons']]
+                     if [(ic.type, ic.direction, tuple(ic.location), ic.display_name) for ic in ms.maps_by_id[m_].icons] != st_['icons']
+                     or (ms.maps_by_id[m_].is_locked, ms.maps_by_id[m_].is_tracking_position, ms.maps_by_id[m_].scale)
+                     != (st_['locked'], st_['tracking'], st_['scale'])]
             if wrong:
-                ctx.violation('after packet #%d (for map %d) of a map history, the icons of map(s) %r differ from an in-order replay '
-                              '(map %d shows %d icons, replay has %d)' % (len(hist), mid, wrong, wrong[0],
-                                                                         len(ms.maps_by_id[wrong[0]].icons), len(ref[wrong[0]]['icons'])),
+                ctx.violation('after packet #%d (for map %d) of a map history, the icons / flags / scale of map(s) %r differ from an in-order '
+                              'replay (map %d shows %d icons, replay has %d)' % (len(hist), mid, wrong, wrong[0],
+                                                                                len(ms.maps_by_id[wrong[0]].icons), len(ref[wrong[0]]['icons'])),
                               {'history': hist}, key={'maphist-icons': hist})
                 break
         ctx.case(('maphist', tuple(hist)))
